@@ -168,8 +168,8 @@ pub struct SpecificCharacterSet;
 pub fn trim_trail_empty_bytes(x: &[u8]) -> (r: &[u8]) ensures r@.len() <= x@.len() { unimplemented!() }
 /// `&mut buf[..n]` of a fixed array (mutable sub-slicing is outside Verus' subset): trusted shim
 #[verifier::external_body]
-pub fn slice_prefix_mut(buf: &mut [u8; 8], n: usize) -> (r: &mut [u8])
-    requires n <= 8,
+pub fn slice_prefix_mut<const N: usize>(buf: &mut [u8; N], n: usize) -> (r: &mut [u8])
+    requires n <= N,   // std panics otherwise
     ensures r@.len() == n,
 { unimplemented!() }
 #[verifier::external_body]
@@ -292,7 +292,7 @@ SKIP_REMAINDER = '''
 @rewrite? /&mut buf\\[\\.\\.rem\\]/ => slice_prefix_mut(&mut buf, rem)
 @spec
         requires
-            rem <= 8,
+            rem <= 7,   // the largest remainder a call site passes (len & 7, for the 64-bit readers)
         ensures
             r is Ok ==> final(self).position == old(self).position,
             r is Ok ==> final(self).from.consumed() == old(self).from.consumed() + rem && final(self).from.errors() == old(self).from.errors(),
@@ -549,7 +549,7 @@ pub proof fn canary_room(position: u64, len: u32)
     ensures false,
 {}
 pub proof fn canary_skip_remainder(rem: usize)
-    requires rem <= 8,
+    requires rem <= 7,
     ensures false,
 {}
 
